@@ -129,8 +129,18 @@ def p1(rep, w):
                     # non-constant depth: must be the arity parameter itself (receiver slot)
                     pl = op_place(t['args'][1])
                     gorg = origins(g)
-                    okv = pl is not None and (pl['l'] == 2 or any(q == (('arg', 2),) for q in gorg.get(pl['l'], ())))
-                    r.check(okv and g is f, site, 'stack slot read at a depth that is neither a constant nor the arity parameter', g.loc(t.get('sp')))
+                    if g is f:
+                        okv = pl is not None and (pl['l'] == 2 or any(q == (('arg', 2),) for q in gorg.get(pl['l'], ())))
+                    else:
+                        # closure: the depth must be the captured arity parameter of the native
+                        arity_name = f.local_name(2)
+                        cap = {}
+                        for v in g.raw.get('vdi', []):
+                            ps = v['p'].get('p', [])
+                            if v['p']['l'] == 1 and ps and isinstance(ps[0], dict):
+                                cap[ps[0].get('n')] = v['n']
+                        okv = pl is not None and any(q[0] == ('arg', 1) and len(q) >= 2 and cap.get(q[1]) == arity_name for q in gorg.get(pl['l'], ()))
+                    r.check(okv, site, 'stack slot read at a depth that is neither a constant nor the arity parameter', g.loc(t.get('sp')))
                     continue
                 if d == 0:
                     r.ok(site + ' (receiver/top slot exists for every arity)', sample=False)
